@@ -226,4 +226,10 @@ def make_root(base):
     open(os.path.join(root, "a.txt"), "wb").write(b"0123456789")
     open(os.path.join(root, "big.bin"), "wb").write(os.urandom(1 << 20))
     open(os.path.join(root, "index.html"), "wb").write(b"<p>index</p>")
+    # a sub-directory with a file of the same name as one in the root, and a relative link to a large file next to it
+    sub = os.path.join(root, "sub"); os.makedirs(sub, exist_ok=True)
+    open(os.path.join(sub, "a.txt"), "wb").write(b"the other a.txt, in sub")
+    open(os.path.join(sub, "big2.bin"), "wb").write(bytes((i * 31 + 7) & 0xff for i in range(1 << 20)))
+    if not os.path.lexists(os.path.join(sub, "link.bin")):
+        os.symlink("big2.bin", os.path.join(sub, "link.bin"))
     return root
